@@ -441,6 +441,31 @@ def r_clone(ck: Checker) -> None:
         ck.holds("R-LEG-CLONE", f, fn, what, evaluations=len(leaves))
 
 
+def r_clone_collections(ck: Checker) -> None:
+    """The detached clone shares nothing with the live tree: duplicate() copies every kind of child collection the child
+    enumeration walks into (sibling agreement of get_child_nodes_with_field and duplicate)."""
+    def coll_classes(fn: ast.FunctionDef) -> set[str] | None:
+        out: set[str] = set()
+        for c in ast.walk(fn):
+            if isinstance(c, ast.Call) and dotted(c.func) == "isinstance" and len(c.args) == 2:
+                names = {norm(x) for x in (c.args[1].elts if isinstance(c.args[1], ast.Tuple) else [c.args[1]])}
+                if names <= {"list", "tuple", "Sequence", "t.Sequence", "abc.Sequence", "set", "frozenset", "Iterable", "t.Iterable"}:
+                    out |= names
+        return out or None
+
+    en = ck.repo.func(LNODE, f"{CLS}.get_child_nodes_with_field")
+    du = ck.repo.func(LNODE, f"{CLS}.duplicate")
+    e_, d_ = coll_classes(en.raw or en.node), coll_classes(du.raw or du.node)
+    what = "duplicate copies every kind of child collection that the child enumeration walks into (the clone shares no child container with the original)"
+    if e_ is None or d_ is None:
+        raise Unsupported(f"collection tests of get_child_nodes_with_field / duplicate not found ({e_}, {d_})", du.node)
+    if e_ <= d_ or d_ & {"Sequence", "t.Sequence", "abc.Sequence", "Iterable", "t.Iterable"}:
+        ck.holds("R-LEG-CLONE", du, du.node, what, enumeration=sorted(e_), duplicate=sorted(d_))
+    else:
+        ck.violation("R-LEG-CLONE", du, du.node, what, construct=f"duplicate copies child collections of type {sorted(d_)} only, the enumeration also walks into {sorted(e_ - d_)}: such a "
+                     "collection (and the nodes in it) is shared between the live tree and the detached clone a transformer works on")
+
+
 def run(ck: Checker) -> None:
     ck.explanation = (
         "Effect / compensation analysis of the legacy operations that can be rejected (replace, replace_with, _attach_inner via __post_init__/"
@@ -456,3 +481,4 @@ def run(ck: Checker) -> None:
     ck.guard("R-LEG-ROLLBACK", lambda: r_rollback(ck))
     ck.guard("R-LEG-PRECHECK", lambda: r_prechecks(ck))
     ck.guard("R-LEG-CLONE", lambda: r_clone(ck))
+    ck.guard("R-LEG-CLONE", lambda: r_clone_collections(ck))
